@@ -3,6 +3,7 @@ import RV.Model.Var
 import RV.Driver.Util
 import RV.Gen.C16Deriv
 import RV.Gen.C16Dispatch
+import RV.Gen.C16VarLoops
 /-
   drv_c16 — line protocol driver for C16.  All numbers are IEEE doubles as 16 hex digits,
   counts are decimal.
@@ -12,6 +13,8 @@ import RV.Gen.C16Dispatch
     deriv <name> inputs (pal: G m M a lambda k h ix iy p q; orb: G m M a e inc Omega omega f) -> 7  generated RV/Gen/C16Deriv function
     palmap / orbmap (same inputs)                          -> 7    palMap / orbMap (constructors relative to the primary)
     megno (t dY dt_done)*                                   -> Ys Yss cov var meanY meanT megno lyapunov n   after the updates
+    var1g / var2g N G soft2 ...                            -> 3N   loops over the kernels TRANSLATED from gravity.c (RV/Gen/C16VarLoops), softening included
+    ad2soft N G soft2 ...                                  -> 3N   eps1eps2-part of the softened force on Dual (Dual Float)
     corrsched order inv dt na a*na nb b*nb                  -> "K a ; RR ; RV ; A ; I b ; …" schedule of reb_whfast_apply_corrector
     whjac/adwhjac G eta dt soft x y z dx dy dz             -> 6/3  WHFast Jacobi term and its variation / AD
     forceS/var1S/ad1S/ad2S  N_active tptype N G ...        -> 3N   the same with N_active < N (accBasicSplit/accVar1Split)
@@ -146,6 +149,23 @@ def step (toks : List String) : String :=
     let last := match (trip rest).getLast? with | some u => u.1 | none => 0.0
     hxs [s.Ys, s.Yss, s.cov, s.var, s.meanY, s.meanT, megnoOf z last s.Yss, lyapunovOf z s] ++ " " ++ toString s.n
   | ["derivcount"] => s!"{RV.Gen.C16Deriv.functionCount} {RV.Gen.C16Deriv.statementCount}"
+  | "var1g" :: n :: g :: s2 :: rest =>
+    let n := n.toNat!
+    let all := gps rest
+    let ps := (all.take n).zip (all.drop n)
+    v3s (loopLF V3.add V3.zero (fun a b : RV1 Float => RV.Gen.C16VarLoops.var1Body sqrtF (fl g) (fl s2) a.1 b.1 a.2 b.2) [] [] ps)
+  | "var2g" :: n :: g :: s2 :: rest =>
+    let n := n.toNat!
+    let all := gps rest
+    let ps := zip4 (all.take n) ((all.drop n).take n) ((all.drop (2*n)).take n) (all.drop (3*n))
+    v3s (loopEF V3.add (RV.Gen.C16VarLoops.var2Body sqrtF (fl g) (fl s2)) ps (ps.map (fun _ => V3.zero)))
+  | "ad2soft" :: n :: g :: s2 :: rest =>
+    let n := n.toNat!
+    let all := gps rest
+    let ps := (zip4 (all.take n) ((all.drop n).take n) ((all.drop (2*n)).take n) (all.drop (3*n))).map
+      (fun q => gpD2 q.p q.da q.db q.dd)
+    v3s ((accBasicAll (cD2 (fl g)) (cD2 (fl s2)) (Dual2.sqrtLift2 sqrtF) ps).map
+      (fun v => ⟨v.x.eps.eps, v.y.eps.eps, v.z.eps.eps⟩))
   | "ad1soft" :: n :: g :: s2 :: rest =>
     let n := n.toNat!
     let all := gps rest
